@@ -315,7 +315,13 @@ def kb_model_stream(events, nreads):
 
 def kb_run(events, nreads, via_text, write_every):
     from flipjump.interpreter.io_devices.KeyboardIO import KeyboardIO, ScriptedKeyEventSource, KeyEvent
-    if via_text:
+    if via_text == 'mixed':
+        # every accepted spelling of the documented `tic, down/up, keycode` line: any letter case, 1 / 0, numbers in other bases, blanks, comments
+        downs, ups = ('Down', 'DOWN', '1', 'dOwN', 'down'), ('Up', 'UP', '0', 'uP', 'up')
+        text = '\n  # script\n\n' + ''.join(f'  {hex(t) if k % 2 else t} ,{(downs if d else ups)[k % 5]},  {hex(c) if k % 3 == 0 else c}  \n# between\n'
+                                             for k, (t, d, c) in enumerate(events))
+        src = ScriptedKeyEventSource.from_text(text)
+    elif via_text:
         text = '# script\n' + ''.join(f'{t}, {"down" if d else "up"}, {c}\n' for t, d, c in events)
         src = ScriptedKeyEventSource.from_text(text)
     else:
@@ -359,7 +365,7 @@ def kb_work(task):
             events = list(events)
             scripts += 1
             exp, polls = kb_model_stream(events, nreads)
-            for via_text, we in ((False, 0), (True, 3)):
+            for via_text, we in ((False, 0), (True, 3), ('mixed', 0)):
                 got, (oe, og) = kb_run(events, nreads, via_text, we)
                 n += nreads
                 if got != exp or oe != og:
